@@ -168,6 +168,9 @@ def search(harness, iters=20000, seed=1):
     m = re.search(r'FOUND harness=(\S+) iter=(\d+) bytes=([0-9a-f]*) assertion=(.*)', r['output'])
     if m:
         return {'status': 'found', 'harness': harness, 'bytes': m.group(3), 'assertion': m.group(4), 'iter': int(m.group(2))}
+    if r.get('rc') != 0 or 'NOTFOUND' not in r['output']:
+        # e.g. a harness name the binary does not know: never to be mistaken for "searched, nothing found"
+        return {'status': 'error', 'harness': harness, 'output': r['output'][-300:]}
     return {'status': 'notfound', 'harness': harness, 'iters': iters}
 
 
